@@ -1,14 +1,157 @@
 package main
 
 import (
+	"flag"
 	"fmt"
-	"golang.org/x/tools/go/packages"
-	"golang.org/x/tools/go/ssa"
-	"golang.org/x/tools/go/ssa/ssautil"
+	"os"
+	"strings"
+	"time"
+
+	"gosx/sx"
 )
 
-var _ = packages.Load
-var _ ssa.BuilderMode
-var _ = ssautil.AllPackages
+func main() {
+	if len(os.Args) < 2 {
+		fmt.Println("usage: gosx run|check ...")
+		os.Exit(2)
+	}
+	switch os.Args[1] {
+	case "run":
+		cmdRun(os.Args[2:])
+	case "conform":
+		cmdConform(os.Args[2:])
+	default:
+		fmt.Println("unknown command")
+		os.Exit(2)
+	}
+}
 
-func main() { fmt.Println("ok") }
+func cmdRun(args []string) {
+	fs := flag.NewFlagSet("run", flag.ExitOnError)
+	repo := fs.String("repo", "/repo", "")
+	hdir := fs.String("harness", "/verif/harness", "")
+	tags := fs.String("tags", "", "")
+	pkg := fs.String("pkg", "ecs", "")
+	fn := fs.String("fn", "", "")
+	workers := fs.Int("workers", 16, "")
+	verbose := fs.Bool("v", false, "")
+	logs := fs.Bool("logs", false, "")
+	fs.Parse(args)
+	t0 := time.Now()
+	p, err := sx.Load(*repo, *hdir, *tags, "engine")
+	if err != nil {
+		fmt.Println("load error:", err)
+		os.Exit(2)
+	}
+	fmt.Printf("loaded in %.1fs src=%s\n", time.Since(t0).Seconds(), p.SrcHash)
+	opts := sx.DefaultOptions()
+	opts.Workers = *workers
+	opts.Verbose = *verbose
+	opts.KeepLogs = *logs
+	if err := p.InitProgram(opts); err != nil {
+		fmt.Println("init error:", err)
+		os.Exit(2)
+	}
+	f := p.Func(*pkg, *fn)
+	if f == nil {
+		fmt.Println("no such function")
+		os.Exit(2)
+	}
+	res := p.Explore(*fn, f, nil, opts)
+	fmt.Printf("paths=%d done=%d killed=%d panicked=%d failed=%d forks=%d steps=%d obligations=%d discharged=%d wall=%.2fs\n",
+		res.Paths, res.Done, res.Killed, res.Panicked, res.Failed, res.Forks, res.Steps, res.Obligations, res.Discharged, res.Wall.Seconds())
+	fmt.Printf("solver: %+v\n", res.Solver)
+	fmt.Println("reached:", res.Reached)
+	for _, s := range res.Inconclusive {
+		fmt.Println("INCONCLUSIVE:", s)
+	}
+	for _, v := range res.Violations {
+		fmt.Printf("VIOLATION kind=%s label=%q msg=%q model=%v choices=%v\n", v.Kind, v.Label, v.Msg, v.Model, v.Choices)
+	}
+	for _, l := range res.Logs {
+		fmt.Println("LOG", l.Status, l.Choices, l.Err)
+		for _, x := range l.Lines {
+			fmt.Println("   ", x)
+		}
+	}
+}
+
+func cmdConform(args []string) {
+	fs := flag.NewFlagSet("conform", flag.ExitOnError)
+	repo := fs.String("repo", "/repo", "")
+	hdir := fs.String("harness", "/verif/harness", "")
+	tags := fs.String("tags", "", "")
+	pkg := fs.String("pkg", "ecs", "")
+	fn := fs.String("fn", "", "")
+	fs.Parse(args)
+	p, err := sx.Load(*repo, *hdir, *tags, "engine")
+	if err != nil {
+		fmt.Println("load error:", err)
+		os.Exit(2)
+	}
+	opts := sx.DefaultOptions()
+	opts.Workers = 1
+	opts.KeepLogs = true
+	if err := p.InitProgram(opts); err != nil {
+		fmt.Println("init error:", err)
+		os.Exit(2)
+	}
+	nat := sx.NewNative(*repo, *hdir, "/verif/.work")
+	bin, err := nat.Build(*pkg, *tags, false)
+	if err != nil {
+		fmt.Println(err)
+		os.Exit(2)
+	}
+	bad := 0
+	for _, name := range strings.Split(*fn, ",") {
+		f := p.Func(*pkg, name)
+		if f == nil {
+			fmt.Println("no such function", name)
+			os.Exit(2)
+		}
+		res := p.Explore(name, f, nil, opts)
+		no, err := nat.Run(bin, name, "", 1)
+		if err != nil {
+			fmt.Println(err)
+			os.Exit(2)
+		}
+		if len(res.Logs) != 1 || res.Logs[0].Status != sx.Done {
+			fmt.Printf("%s: engine did not finish on a single path: paths=%d %v\n", name, len(res.Logs), res.Inconclusive)
+			for _, l := range res.Logs {
+				fmt.Println("  ", l.Status, l.Err)
+			}
+			bad++
+			continue
+		}
+		el := res.Logs[0].Lines
+		ok := no.Outcome == "VERIF-OK" && len(el) == len(no.Logs)
+		for i := 0; ok && i < len(el); i++ {
+			if el[i] != no.Logs[i] {
+				ok = false
+			}
+		}
+		if !ok {
+			bad++
+			fmt.Printf("%s: MISMATCH native outcome=%s engine lines=%d native lines=%d\n", name, no.Outcome, len(el), len(no.Logs))
+			for i := 0; i < len(el) || i < len(no.Logs); i++ {
+				a, b := "", ""
+				if i < len(el) {
+					a = el[i]
+				}
+				if i < len(no.Logs) {
+					b = no.Logs[i]
+				}
+				m := " "
+				if a != b {
+					m = "!"
+				}
+				fmt.Printf("  %s %-40s %s\n", m, a, b)
+			}
+		} else {
+			fmt.Printf("%s: conform OK (%d log lines, %d steps)\n", name, len(el), res.Steps)
+		}
+	}
+	if bad > 0 {
+		os.Exit(2)
+	}
+}
